@@ -99,6 +99,16 @@ func newResult(t reflect.Type, opts resultOptions) (result, error) {
 					return nil, newErrInvalidInput(
 						fmt.Sprintf("invalid dig.As: %v does not implement %v", t, ifaceType), nil)
 				}
+				// Any number of results may feed a value group, so an
+				// interface listed twice would not be rejected as a duplicate
+				// later on, as it is for single values: the group would
+				// receive the same value twice.
+				for _, asType := range asTypes {
+					if asType == ifaceType {
+						return nil, newErrInvalidInput(
+							fmt.Sprintf("invalid dig.As: %v specified more than once", ifaceType), nil)
+					}
+				}
 				asTypes = append(asTypes, ifaceType)
 			}
 			if len(asTypes) > 0 {
